@@ -173,6 +173,9 @@ class Repo:
             if "@" in part:
                 part, want = part.split("@", 1)
             cands = [d for d in self._children_defs(node) if d.name == part]
+            real = [d for d in cands if not any((dotted(x) or "").split(".")[-1] == "overload"
+                                                for x in getattr(d, "decorator_list", []))]
+            cands = real or cands
             if want == "setter":
                 cands = [
                     d
